@@ -556,6 +556,13 @@ func genPlan(prop, tier string, seed uint64, faults bool) *Plan {
 			}
 			g.podLive[op.ID] = false
 		}
+		if prop == "C11" && r.Chance(0.12) {
+			switch op.Kind {
+			case "create", "start", "update", "stop", "remove", "run-pod", "stop-pod", "remove-pod":
+				op.Crash = r.Range(1, 12)
+				op.CrashAfter = r.Chance(0.5)
+			}
+		}
 		if g.faults {
 			// fault-injecting batch: the runtime refuses an unsolicited
 			// UpdateContainers push; a RunPodSandbox event is lost
